@@ -37,7 +37,7 @@ Plan gen_c13(sk::Rng& r, Tier) {
         Op op;
         op.k = "frame";
         // kind: 0 pristine, 1 bit flip, 2 truncate, 3 extend, 4 swap ranges, 5 other key, 6 valid MAC over undecodable bytes, 7 MAC of a prefix
-        const std::int64_t kind = r.chance(2, 5) ? 0 : r.range(1, 7);
+        const std::int64_t kind = r.chance(2, 5) ? 0 : r.range(1, 8);
         op.a = {kind, static_cast<std::int64_t>(r.below(100000)), r.range(1, 40), static_cast<std::int64_t>(r.below(8))};
         p.ops.push_back(op);
     }
@@ -104,6 +104,14 @@ void exec_c13(const Plan& p, Ctx& ctx) {
                 ctx.boundary("valid_mac_over_undecodable_body");
                 break;
             }
+            case 8: {
+                // signed with a key that differs from the session key in a single bit
+                auto near = cn.key;
+                near[static_cast<std::size_t>(op.at(1)) % 32] ^= static_cast<std::uint8_t>(1u << (op.at(3) % 8));
+                bytes = pr::encode_signed(m, std::span<const std::uint8_t>(near));
+                ctx.boundary("signed_with_key_one_bit_off");
+                break;
+            }
             default: {
                 // MAC computed over a proper prefix of the body
                 auto body = pr::encode(m);
@@ -152,7 +160,7 @@ Scenario make_c13() {
     s.real_components = {"Node (handle_transport_message, handle_acknowledge)", "SessionManager receive_loop", "Message::decode_signed", "HmacSha256::verify", "ReputationManager"};
     s.stub_components = {"OS: threads -> fibers, sockets -> simulated TCP, clock, entropy", "damage is applied to the signed plaintext before transport encryption (equivalent to in-flight damage under a stream cipher)"};
     s.assumptions = {"acceptance is observed through the reputation score; at most 40 pristine frames per run so that the score stays above its clamp"};
-    s.rule = "plan = network knobs + 4..36 frames, each pristine or damaged (bit flip anywhere incl. the MAC, truncation, extension, byte swap, other key, exact MAC over undecodable bytes, MAC over a prefix); non-trivial = at least one damaged frame; distinct = plan hash";
+    s.rule = "plan = network knobs + 4..36 frames, each pristine or damaged (bit flip anywhere incl. the MAC, truncation, extension, byte swap, another peer's key, a key one bit off, exact MAC over undecodable bytes, MAC over a prefix); non-trivial = at least one damaged frame; distinct = plan hash";
     s.gen = gen_c13; s.exec = exec_c13; s.kernel_knobs = net_knobs2;
     s.quick_runs = 3000; s.thorough_runs = 150000; s.quick_secs = 40; s.thorough_secs = 900;
     return s;
